@@ -440,6 +440,13 @@ class InProtocolBase(ProtocolMixin):
         if self.validator is self.SOFT_VALIDATION and not (
                                         cls.validate_string(cls, value)):
             raise ValidationError(value)
+
+        # only the declared values are members; getattr alone would also hand
+        # out methods and other class attributes
+        if not (isinstance(value, six.string_types)
+                                               and value in cls.__values__):
+            raise ValidationError(value)
+
         return getattr(cls, value)
 
     def model_base_from_bytes(self, cls, value):
